@@ -52,7 +52,8 @@ def adaptive_scenarios(W, payload):
         if payload["index"] % 3 == 2:
             # a run with the DEFAULT tolerances that follows, in the same process, a run of ANOTHER model for which the user asked for very
             # loose tolerances: the defaults are the documented ones (1.4e-4), whatever was requested before
-            a = r.choice([Fr(1, 4), Fr(1, 3), Fr(1, 5)]); b = r.choice([Fr(1, 8), Fr(1, 10)])
+            # (fast rates: with loose tolerances the solver would take its maximal step of 1 and be off by hundreds)
+            a = r.choice([Fr(3), Fr(5, 2), Fr(7, 2)]); b = r.choice([Fr(1), Fr(3, 2)])
             def chain(t1, dt):
                 return [{"op": "model", "t0": "0", "t1": str(t1), "dt": str(dt), "comps": ["A", "B", "C"], "inf": ["A"]},
                         {"op": "init_pop", "dist": [["A", {"c": "1000"}], ["B", {"c": "10"}]]},
@@ -62,7 +63,7 @@ def adaptive_scenarios(W, payload):
             I0 = build(chain(10, 5))
             loose = r.choice(["1/2", "1/4"])
             run(I0, "odeint", rtol=loose, atol=loose)
-            ops = chain(*r.choice([(20, 5), (24, 4), (15, 5)]))
+            ops = chain(*r.choice([(4, 1), (4, 2), (6, 2)]))
             I_ = build(ops)
             o = run(I_, "odeint")
             out["evals"] += 2
